@@ -20,7 +20,7 @@ def gen_struct_glob(rng, maxtok=4):
     start = True
     while pos < n:
         last = pos == n - 1
-        kind = rng.choice(['lit', 'lit', 'lit', 'star', 'qm', 'dstar-prefix', 'dstar-mid', 'dstar-suffix', 'alt', 'cls', 'ncls', 'range', 'esc-space', 'sep'])
+        kind = rng.choice(['lit', 'lit', 'lit', 'star', 'qm', 'dstar-prefix', 'dstar-mid', 'dstar-suffix', 'alt', 'cls', 'ncls', 'range', 'esc-space', 'esc-tab', 'esc-nl', 'sep'])
         if kind == 'lit':
             c = rng.choice(['a', 'b', '.', '-'])
             glob += c; rx += re.escape(c)
@@ -58,6 +58,10 @@ def gen_struct_glob(rng, maxtok=4):
             glob += '[a-b]'; rx += '[a-b]'
         elif kind == 'esc-space':
             glob += '\\ '; rx += ' '
+        elif kind == 'esc-tab':
+            glob += '\\t'; rx += '\t'
+        elif kind == 'esc-nl':
+            glob += '\\n'; rx += '\n'
         pos += 1
     if glob == '**/':     # globset treats a glob consisting only of the recursive prefix as `**` (matches everything)
         return glob, '.*'
@@ -65,7 +69,7 @@ def gen_struct_glob(rng, maxtok=4):
 
 
 def gen_path(rng, maxdepth=4):
-    return '/'.join(rng.choice(['a', 'b', 'ab', '.a', 'a.b', '-', 'a b', 'ba', 'b.a', 'aa']) for _ in range(rng.randint(1, maxdepth)))
+    return '/'.join(rng.choice(['a', 'b', 'ab', '.a', 'a.b', '-', 'a b', 'ba', 'b.a', 'aa', 'a\tb', 't', 'atb', 'a\nb', 'n', 'anb', '\t']) for _ in range(rng.randint(1, maxdepth)))
 
 
 RAW = list('ab/*?{},[]!-\\ .^') + ['**', '/**/', '**/', '/**', 'ю']
@@ -102,7 +106,7 @@ def gen_cases(ctx):
             g, rx = gen_struct_glob(rng)
             allow = rng.random() < 0.4
             lead = rng.choice(['', '', ' ', '\t'])
-            trail = rng.choice(['', '', ' ', '  ']) if not g.endswith('\\ ') else ''
+            trail = rng.choice(['', '', ' ', '  ', '\t', ' \t', '\t\t ']) if not g.endswith('\\ ') else ''
             rules.append('%s%s %s%s' % (lead, '+' if allow else '-', g, trail))
             rxs.append((allow, rx))
             if rng.random() < 0.15:
@@ -159,6 +163,9 @@ def e2e(ctx, n):
                 rules.append('%s %s' % (rng.choice('+-'), g))
             if rng.random() < 0.5:
                 rules.append('- ' + rng.choice(['skip', '**/skip', '*.o', 'a/**', '**/a/*']))
+            if rng.random() < 0.25:
+                # the whitelist idiom: the last rule matches everything, also the empty path of the item root itself
+                rules = ['+ keep', '+ keep/**', '+ a', '- ' + rng.choice(['*', '**', '{a,}'])]
             w.filters = ['\n'.join(rules)]
             r = w.backup(advance=10)
             real = os.path.realpath(item)
